@@ -15,6 +15,7 @@ package match
 
 import (
 	"errors"
+	"sort"
 	"strings"
 )
 
@@ -213,7 +214,18 @@ func (m *Matcher) mapcatMatch(bss []Bindings, pattern map[string]interface{}, fa
 		return nil, err
 	}
 
-	for k, v := range pattern {
+	// Visit the pattern's keys in a fixed order.  The order matters
+	// (a variable bound at one key is re-matched at the next, and a key
+	// that merely fails to match can hide an invalid one), so Go's
+	// random map iteration made the outcome vary from call to call.
+	keys := make([]string, 0, len(pattern))
+	for k := range pattern {
+		keys = append(keys, k)
+	}
+	sort.Strings(keys)
+
+	for _, k := range keys {
+		v := pattern[k]
 		if m.IsVariable(k) {
 			if m.AllowPropertyVariables {
 				if len(pattern) == 1 {
